@@ -49,7 +49,9 @@ def _case(draw, nmax):
     return {'series': series, 'ndim': ndim, 'mask': mask, 'c': c, 'other': other,
             'container': 'matrix' if (eq and draw(st.booleans())) else 'list',
             'window': draw(st.one_of(st.none(), st.integers(1, 7))),
-            'penalty': draw(st.sampled_from([None, None, 0.5, 1.0])), 'max_it': draw(st.integers(1, 4))}
+            'penalty': draw(st.sampled_from([None, None, 0.5, 1.0])), 'max_it': draw(st.integers(1, 4)),
+            # pruning must not change any alignment; drawn only where the Euclidean distance is a valid bound (no penalty)
+            'use_pruning': draw(st.integers(0, 3)) == 0}
 
 
 def _cont(case, S):
@@ -83,6 +85,9 @@ def run(case):
     sel = [s for s, m in zip(S, mask) if m]
     kw = {'window': case['window'], 'penalty': case['penalty']}
     rkw = dict(kw)
+    if case.get('use_pruning') and not case['penalty']:
+        kw['use_pruning'] = True
+        res.cls('use_pruning')
     res.cls('ndim=%d' % nd, 'container=' + case['container'], 'unselected-present' if not all(mask) else 'all-selected',
             'n>8' if n > 8 else 'n<=8')
     # reference: unique optimal paths -> defining equation
